@@ -72,6 +72,19 @@ class C06(Spec):
         cases.append(render_case(1, "<blockquote>" * 5 + "<hr>" + "</blockquote>" * 5, [3, 2, 0, -4]))
         cases.append(item_case({"type": "Note", "content": "<a href=\"https://x.example/\">l</a>"}, 0, [40], [0, -3, 1, 2]))
         cases.append(item_case({"type": "Person", "summary": "<a href=\"https://x.example/\">l</a>"}, 1, [40], [0, -3, 1, 2]))
+        # link LISTS (icon, image, url, attachment) whose entries have a good, a missing and every kind of malformed media type, in
+        # every order of two and three: the selection among candidates must never trip over one of them
+        mts = ["image/png", None, "png", "", 5, {"a": 1}, "image/", "/png", "video/mp4"]
+        for a in mts:
+            for b in mts:
+                pair = []
+                for i, mt in enumerate((a, b, a)):
+                    d = {"type": "Image" if i % 2 == 0 else "Link", "url": "https://m.example/%d.png" % i, "href": "https://m.example/%d.png" % i}
+                    if mt is not None:
+                        d["mediaType"] = mt if not isinstance(mt, int) else jsongen.Num(str(mt))
+                    pair.append(d)
+                cases.append(item_case({"type": "Person", "name": "A", "icon": pair[:2], "image": pair}, 1, [40], [1]))
+                cases.append(item_case({"type": rng.choice(["Video", "Image", "Audio", "Note"]), "content": "x", "url": pair, "attachment": pair[:2]}, 0, [40], [1, 2, 3]))
         n = 700 if tier == "quick" else 40000
         gens = [(asgen.post, 0), (asgen.actor, 1), (asgen.activity, 2), (asgen.collection, 3), (asgen.link, 4)]
         for _ in range(n):
